@@ -76,6 +76,9 @@ type UpObs struct {
 	// lifecycle
 	CtxDone bool // the stub saw the request context end (connection closed)
 	Done    bool // handler returned
+	// health probes: how this attempt ended ("200" | "500" | "hang" | "reset") and when
+	Outcome string
+	DoneAt  time.Duration
 }
 
 // Stub is one upstream kube-apiserver endpoint.
@@ -142,17 +145,21 @@ func (s *Stub) ServeHTTP(rw http.ResponseWriter, r *http.Request) {
 	switch {
 	case proxiedID == "" && r.URL.Path == "/healthz":
 		o := s.record(r, "healthz", body)
-		defer func() { o.Done = true }()
+		defer func() { o.Done, o.DoneAt = true, w.Now() }()
 		switch s.Health {
 		case "500":
+			o.Outcome = "500"
 			rw.WriteHeader(500)
 			rw.Write([]byte("unhealthy"))
 		case "hang":
+			o.Outcome = "hang"
 			<-r.Context().Done()
 			o.CtxDone = true
 		case "reset":
+			o.Outcome = "reset"
 			hijackClose(rw)
 		default:
+			o.Outcome = "200"
 			rw.WriteHeader(200)
 			rw.Write([]byte("ok"))
 		}
